@@ -32,3 +32,12 @@ impl Ref<ChannelWaiter> {
 // A-std: std's VecDeque::is_empty has no vstd specification in this Verus; its std contract is stated here.
 pub assume_specification<T, A: std::alloc::Allocator> [std::collections::VecDeque::<T, A>::is_empty] (q: &std::collections::VecDeque<T, A>) -> (r: bool)
   ensures r == (q@.len() == 0);
+
+/// A-std: std documents that `VecDeque::with_capacity` panics ("capacity overflow") when the requested capacity exceeds
+/// isize::MAX bytes; vstd does not model allocation failure, so the call is routed through this stub (R6) which states
+/// the documented panic condition as a precondition (elements are Values: at most 16 bytes in either representation).
+#[verifier::external_body]
+pub fn verif_vecdeque_with_capacity(capacity: usize) -> (r: VecDeque<Value>)
+  requires capacity as int * 16 <= isize::MAX as int
+  ensures r@ == Seq::<Value>::empty()
+{ VecDeque::with_capacity(capacity) }
